@@ -120,9 +120,13 @@ func c19Ops() []c19Op {
 		ref.Payload{T: ref.PEAP, EAP: &ref.EAP{Code: 1, ID: 33, Method: 254, VID: 10415, VType: 3, Data: []byte{1, 0}}})
 	add("BuildEAP5GNAS(40)", func(c *message.IKEPayloadContainer) error { return c.BuildEAP5GNAS(34, univ.Pat(40, 14)) },
 		ref.Payload{T: ref.PEAP, EAP: &ref.EAP{Code: 1, ID: 34, Method: 254, VID: 10415, VType: 3, Data: append([]byte{2, 0, 0, 40}, univ.Pat(40, 14)...)}})
-	add("BuildNotify5G_QOS_INFO(3qfi,default,dscp)", func(c *message.IKEPayloadContainer) error { return c.BuildNotify5G_QOS_INFO(5, []uint8{1, 2, 9}, true, true, 46) },
+	add("BuildNotify5G_QOS_INFO(3qfi,default,dscp)", func(c *message.IKEPayloadContainer) error {
+		return c.BuildNotify5G_QOS_INFO(5, []uint8{1, 2, 9}, true, true, 46)
+	},
 		notify3gpp(55501, qosData(5, []uint8{1, 2, 9}, true, true, 46)))
-	add("BuildNotify5G_QOS_INFO(none)", func(c *message.IKEPayloadContainer) error { return c.BuildNotify5G_QOS_INFO(255, nil, false, false, 63) },
+	add("BuildNotify5G_QOS_INFO(none)", func(c *message.IKEPayloadContainer) error {
+		return c.BuildNotify5G_QOS_INFO(255, nil, false, false, 63)
+	},
 		notify3gpp(55501, qosData(255, nil, false, false, 0)))
 	add("BuildNotifyNAS_IP4_ADDRESS", ok(func(c *message.IKEPayloadContainer) { c.BuildNotifyNAS_IP4_ADDRESS("10.0.0.1") }), notify3gpp(55502, []byte{10, 0, 0, 1}))
 	add("BuildNotifyUP_IP4_ADDRESS", ok(func(c *message.IKEPayloadContainer) { c.BuildNotifyUP_IP4_ADDRESS("192.168.127.1") }), notify3gpp(55504, []byte{192, 168, 127, 1}))
